@@ -736,6 +736,11 @@ class Engine:
         if m is not None:
             yield from m.fn(self, st, list(args), dict(kwargs))
             return
+        import functools as _ft
+
+        if isinstance(f, _ft.partial):
+            yield from self.call(f.func, list(f.args) + list(args), {**f.keywords, **kwargs}, st, line)
+            return
         if isinstance(f, types.BuiltinFunctionType) and getattr(f, "__self__", None) is not None and not isinstance(f.__self__, types.ModuleType):
             owner = f.__self__ if isinstance(f.__self__, type) else type(f.__self__)
             mm_ = self.method_models.get((owner, f.__name__))
